@@ -108,9 +108,16 @@ def run(pid, units, root, build, seed, per_fn=6):
     with ThreadPoolExecutor(max_workers=6) as ex:
         results = list(ex.map(do, jobs))
     asm.set_overlay(None)
+    # a mutant is run once per mode of its unit; it is killed if ANY mode rejects it
+    order = {'killed': 0, 'survived': 1, 'undecided': 2, 'stale': 3}
+    best = {}
+    for m, st in results:
+        key = (m['curated'], m['id'])
+        if key not in best or order[st] < order[best[key][1]]:
+            best[key] = (m, st)
     summary = {'curated': {'total': 0, 'killed': 0, 'survived': [], 'stale': [], 'undecided': []},
                'generated': {'total': 0, 'killed': 0, 'undecided': 0, 'survived': []}}
-    for m, st in results:
+    for m, st in best.values():
         g = summary['curated' if m['curated'] else 'generated']
         g['total'] += 1
         if st == 'killed':
